@@ -268,6 +268,23 @@ pub fn prove(cx: &mut Ctx, op: &Value, it: &mut Interner) -> Value {
         if let Some(n) = mu.get("wappend").and_then(|x| x.as_u64()) {
             w.extend(std::iter::repeat(0u8).take(n as usize));
         }
+        // the length prefix of the direction vector announces another number of bytes than follow
+        if let Some(v) = mu.get("widxlen") {
+            let off = 96 + 8 + 32 * path.len();
+            if w.len() >= off + 8 {
+                let cur = bits.len() as u64;
+                let newv = match v.as_str().unwrap_or("") {
+                    "+100" => cur + 100,
+                    "-1" => cur.saturating_sub(1),
+                    "+1" => cur + 1,
+                    "max" => u64::MAX,
+                    "max-7" => u64::MAX - 7,
+                    "2^32" => 1u64 << 32,
+                    _ => cur,
+                };
+                w[off..off + 8].copy_from_slice(&newv.to_le_bytes());
+            }
+        }
         w
     };
     let mut out: Vec<u8> = Vec::new();
